@@ -54,10 +54,14 @@ theorem copyBuf_last (m : Msg) (k : Nat) (h7 : 7 * k ≤ 223) (hlen : m.len ≤ 
     · simp; omega
     · intro i h1 h2
       have hi : i < m.len := by simpa using h1
-      simp [payloadByte, hi, List.getD_eq_getElem?_getD, List.getElem?_take]
+      simp [payloadByte, hi, List.getD_eq_getElem?_getD]
       have : i < m.data.length := by omega
       simp [this]
 
+
+/-- the handler call the transfer must end in -/
+def delivered (m : Msg) (src dst : Nat) : Delivery :=
+  { pgn := m.pgn, src := src, dst := dst, prio := 7, len := m.len, tp := true, data := m.data.take m.len }
 
 /-- the receive slot of the transfer after `k` packets (time does not pass during the exchange) -/
 def sess (a0 : Slot) (m : Msg) (src dst now32 k : Nat) : Slot :=
@@ -69,35 +73,35 @@ theorem sess_zero (a0 : Slot) (m : Msg) (src dst now32 : Nat) :
 theorem sessOf_sess (a0 : Slot) (m : Msg) (src dst now32 k : Nat) : sessOf src dst (sess a0 m src dst now32 k) = true := by
   simp [sessOf, sess, rtsSlot, startSlot]
 
-theorem dtSlot_sess (a0 : Slot) (m : Msg) (src dst now32 k : Nat) (hk : k < 255) (h : 7 * (k + 1) ≤ 223) :
-    dtSlot (sess a0 m src dst now32 k) (dtBytes m k) now32 = sess a0 m src dst now32 (k + 1) := by
+theorem dtSlot_sess (a0 : Slot) (m : Msg) (src dst mt now32 k : Nat) (hk : k < 255) (h : 7 * (k + 1) ≤ 223) :
+    dtSlot (sess a0 m src dst mt k) (dtBytes m k) now32 = sess a0 m src dst now32 (k + 1) := by
   unfold dtSlot sess
   simp only [rtsSlot, startSlot, copyBuf_mid m k h, dtBytes_head m k hk]
 
 theorem tpCtsPackets_pos (n : Nat) : 0 < tpCtsPackets n := by unfold tpCtsPackets; omega
 
 section rx
-variable (b : Node) (db : Dev) (m : Msg) (srcA j k : Nat) (S' : List Slot) (a0 : Slot)
+variable (b : Node) (db : Dev) (m : Msg) (srcA j k mt : Nat) (S' : List Slot) (a0 : Slot)
   (out : List Delivery) (fs rxq : List Frame)
 
 /-- **a data packet that is not the last one arrives** -/
 theorem rx_mid (hd : b.s.devs = [db]) (hq : Quiet b.s 0) (hsrc : srcA < 256) (hdst : m.dst = db.source)
     (hnone : findIdx (sessOf srcA db.source) S' = none) (hj : j < S'.length)
     (hk : 7 * (k + 1) < m.len) (hlen : m.len ≤ 223) :
-    rxFrame (b.upd b.tp (S'.set j (sess a0 m srcA db.source (millis32 b.s.now) k)) out fs rxq) (dtFrame srcA m k) =
+    rxFrame (b.upd b.tp (S'.set j (sess a0 m srcA db.source mt k)) out fs rxq) (dtFrame srcA m k) =
       b.upd b.tp (S'.set j (sess a0 m srcA db.source (millis32 b.s.now) (k + 1))) out
         (fs ++ if (k + 1) % tpCtsPackets (tpPacketCount m.len) = 0
                 then [cmFrame db.source srcA (ctsBytes m.pgn (tpPacketCount m.len) (k + 2))] else []) rxq := by
   have hdsrc : db.source ≤ 251 := by
     obtain ⟨d', hd', hs, _⟩ := hq.dev
     rw [hd] at hd'; simp at hd'; subst hd'; exact hs
-  generalize hN : b.upd b.tp (S'.set j (sess a0 m srcA db.source (millis32 b.s.now) k)) out fs rxq = N
+  generalize hN : b.upd b.tp (S'.set j (sess a0 m srcA db.source mt k)) out fs rxq = N
   have hNq : Quiet N.s 0 := by subst hN; exact upd_quiet _ _ _ _ _ _ hq
   have hNd : N.s.devs[0]? = some db := by subst hN; simp [hd]
   have hfd : findDev N.s.devs db.source = some 0 := by subst hN; simp only [upd_devs, hd]; exact findDev_solo db (by omega)
   have hfj : findIdx (sessOf srcA db.source) N.slots = some j := by
     subst hN; exact findIdx_set_of_none _ _ _ _ hnone hj (sessOf_sess _ _ _ _ _ _)
-  have hsl : N.slots[j]? = some (sess a0 m srcA db.source (millis32 b.s.now) k) := by
+  have hsl : N.slots[j]? = some (sess a0 m srcA db.source mt k) := by
     subst hN; exact List.getElem?_set_self hj
   have hnow : N.s.now = b.s.now := by subst hN; rfl
   have hk255 : k < 255 := by omega
@@ -106,10 +110,10 @@ theorem rx_mid (hd : b.s.devs = [db]) (hq : Quiet b.s 0) (hsrc : srcA < 256) (hd
         (by rw [dtBytes_head m k hk255]; rfl)
         (by show (copyBuf (gotBytes m k) 1 8 (dtBytes m k)).length < m.len
             rw [copyBuf_mid m k (by omega), gotBytes_length]; omega)]
-  rw [hnow, dtSlot_sess a0 m srcA db.source _ k hk255 (by omega), dtBytes_head m k hk255]
-  have hreq : (sess a0 m srcA db.source (millis32 b.s.now) k).reqCTS = tpCtsPackets (tpPacketCount m.len) := rfl
-  have hmax : (sess a0 m srcA db.source (millis32 b.s.now) k).maxPackets = tpPacketCount m.len := rfl
-  have hpgn : (sess a0 m srcA db.source (millis32 b.s.now) k).pgn = m.pgn := rfl
+  rw [hnow, dtSlot_sess a0 m srcA db.source mt _ k hk255 (by omega), dtBytes_head m k hk255]
+  have hreq : (sess a0 m srcA db.source mt k).reqCTS = tpCtsPackets (tpPacketCount m.len) := rfl
+  have hmax : (sess a0 m srcA db.source mt k).maxPackets = tpPacketCount m.len := rfl
+  have hpgn : (sess a0 m srcA db.source mt k).pgn = m.pgn := rfl
   rw [hreq, hmax, hpgn]
   subst hN
   simp only [finish]
@@ -125,41 +129,40 @@ theorem rx_mid (hd : b.s.devs = [db]) (hq : Quiet b.s 0) (hsrc : srcA < 256) (hd
 theorem rx_last (hd : b.s.devs = [db]) (hq : Quiet b.s 0) (hsrc : srcA < 256) (hdst : m.dst = db.source)
     (hnone : findIdx (sessOf srcA db.source) S' = none) (hj : j < S'.length)
     (hk : m.len ≤ 7 * (k + 1)) (hk' : 7 * k < m.len) (hlen : m.len ≤ 223) (hl : m.len ≤ m.data.length) :
-    ∃ S'', rxFrame (b.upd b.tp (S'.set j (sess a0 m srcA db.source (millis32 b.s.now) k)) out fs rxq) (dtFrame srcA m k) =
-      b.upd b.tp S'' (out ++ [{ pgn := m.pgn, src := srcA, dst := db.source, prio := 7, len := m.len, tp := true,
-                                 data := m.data.take m.len }])
+    ∃ S'', rxFrame (b.upd b.tp (S'.set j (sess a0 m srcA db.source mt k)) out fs rxq) (dtFrame srcA m k) =
+      b.upd b.tp S'' (out ++ [delivered m srcA db.source])
         (fs ++ [cmFrame db.source srcA (endAckBytes m.pgn m.len (k + 1))]) rxq ∧
       (∀ a ∈ S'', sessOf srcA db.source a = false) ∧ S''.length = S'.length := by
   have hdsrc : db.source ≤ 251 := by
     obtain ⟨d', hd', hs, _⟩ := hq.dev
     rw [hd] at hd'; simp at hd'; subst hd'; exact hs
-  generalize hN : b.upd b.tp (S'.set j (sess a0 m srcA db.source (millis32 b.s.now) k)) out fs rxq = N
+  generalize hN : b.upd b.tp (S'.set j (sess a0 m srcA db.source mt k)) out fs rxq = N
   have hNq : Quiet N.s 0 := by subst hN; exact upd_quiet _ _ _ _ _ _ hq
   have hNd : N.s.devs[0]? = some db := by subst hN; simp [hd]
   have hfd : findDev N.s.devs db.source = some 0 := by subst hN; simp only [upd_devs, hd]; exact findDev_solo db (by omega)
   have hfj : findIdx (sessOf srcA db.source) N.slots = some j := by
     subst hN; exact findIdx_set_of_none _ _ _ _ hnone hj (sessOf_sess _ _ _ _ _ _)
-  have hsl : N.slots[j]? = some (sess a0 m srcA db.source (millis32 b.s.now) k) := by
+  have hsl : N.slots[j]? = some (sess a0 m srcA db.source mt k) := by
     subst hN; exact List.getElem?_set_self hj
   have hk255 : k < 255 := by omega
   obtain ⟨hge, htake⟩ := copyBuf_last m k (by omega) hlen hk hl
   rw [dtFrame_eq, hdst, rxFrame_dt N srcA db.source _ hsrc (by omega) (dtBytes_length m k)]
   rw [handleData_last_quiet N srcA db.source 0 j db _ _ hNq hNd hsrc hfd hfj hsl
         (by rw [dtBytes_head m k hk255]; rfl) hge]
-  have hreq : (sess a0 m srcA db.source (millis32 b.s.now) k).reqCTS > 0 := tpCtsPackets_pos _
+  have hreq : (sess a0 m srcA db.source mt k).reqCTS > 0 := tpCtsPackets_pos _
   rw [if_pos hreq, dtBytes_head m k hk255]
-  refine ⟨S'.set j (freeMessage (dtSlot (sess a0 m srcA db.source (millis32 b.s.now) k) (dtBytes m k) (millis32 N.s.now))), ?_, ?_, ?_⟩
+  refine ⟨S'.set j (freeMessage (dtSlot (sess a0 m srcA db.source mt k) (dtBytes m k) (millis32 N.s.now))), ?_, ?_, ?_⟩
   · subst hN
     simp only [finish, upd_setSlot, upd_pushes, List.set_set]
     unfold deliver
     simp only [upd_slots, List.getElem?_set_self hj, List.set_set]
-    have e1 : (dtSlot (sess a0 m srcA db.source (millis32 b.s.now) k) (dtBytes m k)
-        (millis32 (b.upd b.tp (S'.set j (sess a0 m srcA db.source (millis32 b.s.now) k)) out fs rxq).s.now)).data.take m.len
+    have e1 : (dtSlot (sess a0 m srcA db.source mt k) (dtBytes m k)
+        (millis32 (b.upd b.tp (S'.set j (sess a0 m srcA db.source mt k)) out fs rxq).s.now)).data.take m.len
           = m.data.take m.len := by simpa [dtSlot, sess] using htake
     simp only [Node.upd]
     congr 1
     simp only [dtSlot, sess, rtsSlot, startSlot] at e1 ⊢
-    simp [e1]
+    simp [e1, delivered]
   · intro a ha
     rcases List.mem_or_eq_of_mem_set ha with h | h
     · have := findIdx_get (sessOf srcA db.source) S'
